@@ -74,6 +74,14 @@ func init() {
 					segs = append(segs, d)
 				}
 				stream, points, datas := stdStreamWithFlushes(pkg, lvl, segs)
+				if i%4 == 3 {
+					// raw streams whose LAST block is of any kind (a non-empty stored block, a fixed or dynamic block ending
+					// on any bit offset): neither writer produces these endings; the point is the stream end
+					s, out, _ := Synthesize(r, SynthOpts{MaxBlocks: r.Pick([]int{1, 2, 3}), MaxTokens: r.Pick([]int{5, 60, 600}), StdCompat: true, LastStored: i%8 == 3, BigStored: r.Intn(3) == 0})
+					if chk, err := stdDecode(WCfg{Pkg: "flate"}, s); err == nil && bytes.Equal(chk, out) {
+						pkg, stream, points, datas = "flate", s, []int{len(s)}, []int{len(out)}
+					}
+				}
 				pi := r.Intn(len(points))
 				c := Case{Prop: "C11", Pkg: pkg, Stream: stream, K: points[pi], Ints: []int{datas[pi], b2i(pi == len(points)-1)},
 					Kind: r.Pick2("block", "error", "garbage"), Chunks: chunkPattern(r), Reads: readPattern(r), Ctor: r.Pick2("new", "reset"), Src: r.Pick2("plain", "bufio:4096", "bufio:64")}
